@@ -16,14 +16,16 @@ TRUSTED = [
     "Base/Str.v isspace table compared with CPython str.isspace() for all 0x110000 code points on each run",
 ]
 ASSUMPTIONS = [
-    "short/long-form print-and-reparse and the validation verdict are checked on the implementation only (testing)",
+    "print-and-reparse is proved for every text and every well-formed rendering of tag texts (C02_print_reparse, "
+    "C02_render_reparse); that hed-python's short/long forms ARE such renderings of the same tags is checked on the "
+    "implementation only (testing; see C03 for the forms themselves)",
     "tag identification against the schema inside the constructor (HedTag.__init__ -> schema lookups) is not modelled: "
     "the model takes no schema, so 'the tree is the same under every schema configuration' is what the correspondence "
     "run checks (5 configurations: plain, namespaced, schema group with a prefixed library, pre-8.3, library schema) "
     "and 'never raises' for that part is tested over each schema's own vocabulary in every tag position and in "
     "case-fold-equivalent spellings (testing)",
-    "C02_spec_bounded is exhaustive for |s|<=7 over {a,' ',',','(',')','/'}; unbounded theorems: totality, tiling, "
-    "soundness of the count check",
+    "C02_spec_bounded is an additional exhaustive kernel evaluation for |s|<=6 over {a,' ',',','(',')','/'}; all "
+    "other theorems are unbounded (every string)",
 ]
 
 SIGMA6 = "a ,()/"
